@@ -133,6 +133,9 @@ def gen():
     random.Random(57).shuffle(out)
     for i, m in enumerate(out):
         m["index"] = i
+    head = subprocess.run(f"git -C {SRC} rev-parse --short HEAD", shell=True, capture_output=True, text=True).stdout.strip()
+    for m in out:
+        m["repo_head"] = head
     json.dump(out, open("/var/tmp/mutants.json", "w"))
     by = {}
     for m in out:
@@ -164,6 +167,7 @@ def sh(cmd, cwd=None, env=None, timeout=3600):
 def prepare():
     if not os.path.isdir(REPO):
         sh(f"git -C {SRC} worktree add -q --detach {REPO} HEAD")
+    sh("git reset -q --hard && git checkout -q --detach main", cwd=REPO)
     sh(f"mkdir -p {VERIF} && rsync -a --delete --exclude .build --exclude .work --exclude .git --exclude replays --exclude evidence --exclude seeded /verif/ {VERIF}/")
     sh(f"sed -i 's|path = \"/repo\"|path = \"{REPO}\"|' {VERIF}/engine/mc/Cargo.toml")
 
@@ -199,7 +203,7 @@ def known_prefilter():
 
 
 def evaluate(m, stop_early=True, pre=None):
-    row = {k: m[k] for k in ("index", "file", "line", "old", "new", "text", "kind")}
+    row = {k: m[k] for k in ("index", "file", "line", "old", "new", "text", "kind", "repo_head")}
     v = pre or prefilter(m, REPO, TARGET, 16)
     if v != "passes-suite":
         row["verdict"] = v
@@ -235,6 +239,7 @@ def main():
         repo, target = f"/var/tmp/mutf{slot}", f"/var/tmp/mutf{slot}-target"
         if not os.path.isdir(repo):
             sh(f"git -C {SRC} worktree add -q --detach {repo} HEAD")
+        sh("git reset -q --hard && git checkout -q --detach main", cwd=repo)
         with open(f"/var/tmp/mutfilter_{slot}.jsonl", "a") as f:
             for m in muts[a:b]:
                 v = prefilter(m, repo, target, 4)
